@@ -105,35 +105,33 @@ theorem counters_fresh {j : Journal} (hinv : JInv j) : (abs j).counters (abs j).
   simp only [beq_iff_eq]; omega
 
 /-- a stored message survives every list of calls that contains no renumbering at or below it -/
-theorem store_frame_ops (j : Journal) (hinv : JInv j) (ops : List Op)
-    (hok : ∀ op ∈ ops, op.HalfApplies = false) (key : Int) (dir : Dir) (n : Int) (m : Bytes)
+theorem store_frame_ops (j : Journal) (hinv : JInv j) (ops : List Op) (key : Int) (dir : Dir) (n : Int) (m : Bytes)
     (hs : (abs j).store key dir n = some m) :
     (abs (applyOps j ops)).store key dir n = some m ∨ ∃ op ∈ ops, op.truncates key dir n = true := by
   induction ops generalizing j with
   | nil => left; exact hs
   | cons op rest ih =>
     rw [applyOps_cons]
-    have href := applyOp_refines hinv op (hok op (List.mem_cons_self ..))
+    have href := applyOp_refines hinv op
     rcases spec_store_frame (abs j) op key dir n m hs with h1 | h1
     · rw [← href] at h1
-      rcases ih (applyOp j op).1 (applyOp_inv op hinv) (fun o ho => hok o (List.mem_cons_of_mem _ ho)) h1 with h2 | ⟨o, ho, h2⟩
+      rcases ih (applyOp j op).1 (applyOp_inv op hinv) h1 with h2 | ⟨o, ho, h2⟩
       · left; exact h2
       · right; exact ⟨o, List.mem_cons_of_mem _ ho, h2⟩
     · right; exact ⟨op, List.mem_cons_self .., h1⟩
 
 /-- stored counters survive every list of calls that does not write that session's counters -/
-theorem counters_frame_ops (j : Journal) (hinv : JInv j) (ops : List Op)
-    (hok : ∀ op ∈ ops, op.HalfApplies = false) (id : Nat) (v : Int × Int)
+theorem counters_frame_ops (j : Journal) (hinv : JInv j) (ops : List Op) (id : Nat) (v : Int × Int)
     (hs : (abs j).counters id = some v) :
     (abs (applyOps j ops)).counters id = some v ∨ ∃ op ∈ ops, op.touchesCounters id = true := by
   induction ops generalizing j with
   | nil => left; exact hs
   | cons op rest ih =>
     rw [applyOps_cons]
-    have href := applyOp_refines hinv op (hok op (List.mem_cons_self ..))
+    have href := applyOp_refines hinv op
     rcases spec_counters_frame (abs j) op id v hs (counters_fresh hinv) with h1 | h1
     · rw [← href] at h1
-      rcases ih (applyOp j op).1 (applyOp_inv op hinv) (fun o ho => hok o (List.mem_cons_of_mem _ ho)) h1 with h2 | ⟨o, ho, h2⟩
+      rcases ih (applyOp j op).1 (applyOp_inv op hinv) h1 with h2 | ⟨o, ho, h2⟩
       · left; exact h2
       · right; exact ⟨o, List.mem_cons_of_mem _ ho, h2⟩
     · right; exact ⟨op, List.mem_cons_self .., h1⟩
